@@ -42,6 +42,9 @@ pub fn check_node<C: Cfg>(
             format!("empty message sealed to {:x?}", to_u128(&sealed)),
         ));
     }
+    if let Some(d) = crate::walk::range_inspection_changes::<C>(enc) {
+        out.push((format!("RangeEncoder | {} | an encoder inspected between symbols does not continue like the uninspected one", C::NAME), format!("history {:?}: {d}", hist)));
+    }
     // decode through two differently constructed decoders
     let mut ndec = 0u64;
     for variant in 0..2 {
